@@ -8,7 +8,8 @@ import os
 REPO = os.environ.get('VERIF_DEV_REPO') or '/repo'
 
 REFERENCE = {'source': 'deep', 'pipelineCopy': 'deep', 'lookupForeign': 'deep', 'lookupWritesInput': True,
-             'addFieldsTop': 'shallow', 'addFieldsNested': 'shallow', 'unwindDoc': 'deep',
+             'addFieldsTop': 'shallow', 'addFieldsNested': 'shallow',
+             'addFieldsItemValue': 'deep', 'resultCopy': 'deep', 'unwindDoc': 'deep',
              'unwindItem': 'deep', 'unwindIndexed': 'deep', 'samplePops': False,
              'facetSharesInput': False, 'literal': 'deep', 'arrayConst': 'evaluated',
              'outStores': 'deep'}
@@ -90,22 +91,97 @@ def _weakest(kinds):
     return 'none'
 
 
-def _add_fields_nested(fn):
-    """`$addFields` walks a dotted name in a loop `for subfield in parts[:-1]`: how is the
-    sub-document `out_doc[subfield]` obtained that the walk then descends into and writes?
-    Every assignment `out_doc[subfield] = <expr>` whose right-hand side READS the document
-    (mentions `out_doc`) counts; the weakest copy decides."""
-    kinds = []
-    for loop in ast.walk(fn):
-        if not (isinstance(loop, ast.For) and 'parts' in ast.unparse(loop.iter)):
-            continue
-        var = ast.unparse(loop.target)
-        for n in ast.walk(loop):
-            if isinstance(n, ast.Assign) and any(
-                    isinstance(t, ast.Subscript) and ast.unparse(t.slice) == var
-                    for t in n.targets) and 'out_doc' in ast.unparse(n.value):
-                kinds.append(_copy_kind(n.value))
-    return _weakest(kinds) if kinds else 'none'
+def _add_fields_walk(agg):
+    """`$addFields` places a value at a dotted name through the helper `_add_field(value, parts,
+    new_value)`.  Returns (nested, item):
+      nested — how a DOCUMENT found on the path is taken before it is written: the helper must
+               re-bind `value` to a copy of it (`value = copy.copy(value) if isinstance(value,
+               dict) else {}`) before `value[parts[0]] = …`; `none` when it writes `value` itself;
+      item   — how the new value reaches every item of an ARRAY on the path: the recursive call
+               inside the list branch must be handed `copy.deepcopy(new_value)`, and the branch
+               must return a NEW list;
+    and the handler must place the result into its own `dict(doc)` (`addFieldsTop`)."""
+    fn = agg.get('_add_field')
+    h = agg['_handle_add_fields_stage']
+    if fn is None or '_add_field' not in _calls(h):
+        return 'none', 'none'
+    params = [a.arg for a in fn.args.args]
+    if len(params) != 3:
+        return 'none', 'none'
+    val, _parts, new = params
+    nested, item = 'none', 'none'
+    writes = [n for n in ast.walk(fn) if isinstance(n, ast.Assign) and any(
+        isinstance(t, ast.Subscript) and ast.unparse(t.value) == val for t in n.targets)]
+    rebinds = [n for n in ast.walk(fn) if isinstance(n, ast.Assign) and any(
+        isinstance(t, ast.Name) and t.id == val for t in n.targets)]
+    if writes and rebinds and all(r.lineno < w.lineno for r in rebinds for w in writes):
+        kinds = []
+        for r in rebinds:
+            v = r.value
+            if isinstance(v, ast.IfExp):      # copy.copy(value) if isinstance(value, dict) else {}
+                kinds.append(_copy_kind(v.body) if val in ast.unparse(v.body) else 'deep')
+                if val in ast.unparse(v.orelse):
+                    kinds.append(_copy_kind(v.orelse))
+            else:
+                kinds.append(_copy_kind(v) if val in ast.unparse(v) else 'deep')
+        nested = _weakest(kinds)
+    for n in ast.walk(fn):
+        if isinstance(n, ast.If) and 'list' in ast.unparse(n.test) and val in ast.unparse(n.test):
+            rets = [m for m in n.body if isinstance(m, ast.Return)]
+            if rets and isinstance(rets[0].value, ast.ListComp):
+                calls = [c for c in ast.walk(rets[0].value) if isinstance(c, ast.Call)
+                         and ast.unparse(c.func) == fn.name]
+                if calls and all(len(c.args) == 3 for c in calls):
+                    item = _weakest(_copy_kind(c.args[2]) if new in ast.unparse(c.args[2]) else 'none'
+                                    for c in calls)
+    return nested, item
+
+
+def _source_copy(a, col):
+    """how the stored documents enter `aggregate`: through `self.find()` (a cursor of copies) or
+    `self._get_dataset(<spec>, None, None, <class>)`, whose `_copy_only_fields(doc, None, …)`
+    returns `_copy_field(doc, container)` — a rebuild of every dict and list"""
+    calls = _calls(a)
+    if 'self.find' in calls:
+        return 'deep'
+    ds = [n for n in ast.walk(a) if isinstance(n, ast.Call) and ast.unparse(n.func) == 'self._get_dataset']
+    if ds and len(ds[0].args) == 4 and ast.unparse(ds[0].args[2]) == 'None':
+        gd, cof, cf = col.get('_get_dataset'), col.get('_copy_only_fields'), col.get('_copy_field')
+        if gd is not None and cof is not None and cf is not None and \
+                'self._copy_only_fields' in _calls(gd):
+            first = [n for n in cof.body if isinstance(n, ast.If)]
+            if first and 'fields is None' in ast.unparse(first[0].test) and any(
+                    isinstance(m, ast.Return) and ast.unparse(m.value).startswith('_copy_field(doc')
+                    for m in first[0].body) and cf.name in _calls(cf):
+                return 'deep'
+    return 'deep' if any('deepcopy' in c for c in calls) else 'none'
+
+
+def _result_copy(a, hlp):
+    """`aggregate` of a tz_aware collection: `if self.codec_options.tz_aware:` must re-bind the
+    results to a cursor over `helpers.make_datetime_timezone_aware_in_document(list(results))`,
+    a helper that returns a new dict for every dict and a new list for every list"""
+    for n in ast.walk(a):
+        if isinstance(n, ast.If) and 'tz_aware' in ast.unparse(n.test):
+            for m in ast.walk(n):
+                if isinstance(m, ast.Call) and ast.unparse(m.func).endswith(
+                        'make_datetime_timezone_aware_in_document') and m.args and \
+                        'results' in ast.unparse(m.args[0]):
+                    fn = hlp.get('make_datetime_timezone_aware_in_document')
+                    if fn is None:
+                        return 'none'
+                    dict_ok = list_ok = False
+                    for i in ast.walk(fn):
+                        if isinstance(i, ast.If) and 'isinstance(value' in ast.unparse(i.test):
+                            r = [x for x in i.body if isinstance(x, ast.Return)]
+                            if not r or fn.name + '(' not in ast.unparse(r[0].value):
+                                continue
+                            if 'dict' in ast.unparse(i.test) and isinstance(r[0].value, ast.DictComp):
+                                dict_ok = True
+                            if 'list' in ast.unparse(i.test) and isinstance(r[0].value, ast.ListComp):
+                                list_ok = True
+                    return 'deep' if dict_ok and list_ok else 'none'
+    return 'none'
 
 
 def _assigned_kind(fn, name, before):
@@ -253,9 +329,10 @@ def extract():
     col = _funcs(os.path.join(REPO, 'mongomock', 'collection.py'))
     d = {}
     a = col['aggregate']
-    d['source'] = 'deep' if 'self.find' in _calls(a) else (
-        'deep' if any('deepcopy' in c for c in _calls(a)) else 'none')
-    d['pipelineCopy'] = _pipeline_copy(a, _funcs(os.path.join(REPO, 'mongomock', 'helpers.py')))
+    hlp = _funcs(os.path.join(REPO, 'mongomock', 'helpers.py'))
+    d['source'] = _source_copy(a, col)
+    d['pipelineCopy'] = _pipeline_copy(a, hlp)
+    d['resultCopy'] = _result_copy(a, hlp)
     lk = agg['_handle_lookup_stage']
     d['lookupForeign'] = 'deep' if 'foreign_collection.find' in _calls(lk) else 'none'
     loop_vars = [ast.unparse(n.target) for n in ast.walk(lk)
@@ -265,7 +342,7 @@ def extract():
             isinstance(t, ast.Subscript) and ast.unparse(t.value) in loop_vars for t in n.targets)
         for n in ast.walk(lk))
     d['addFieldsTop'] = _copy_of(agg['_handle_add_fields_stage'], 'doc')
-    d['addFieldsNested'] = _add_fields_nested(agg['_handle_add_fields_stage'])
+    d['addFieldsNested'], d['addFieldsItemValue'] = _add_fields_walk(agg)
     uw = agg['_handle_unwind_stage']
     # both places that build a new document out of the input document (empty array with
     # preserve…, one per element): `new_doc = <copy>(doc)`; the weakest copy decides
